@@ -78,7 +78,9 @@ func mintCert(spec certSpec, key ed25519.PrivateKey, parent *x509.Certificate, p
 	return c, der
 }
 
-func pemCert(der []byte) []byte { return pem.EncodeToMemory(&pem.Block{Type: "CERTIFICATE", Bytes: der}) }
+func pemCert(der []byte) []byte {
+	return pem.EncodeToMemory(&pem.Block{Type: "CERTIFICATE", Bytes: der})
+}
 func pemKey(k ed25519.PrivateKey) []byte {
 	b, err := x509.MarshalPKCS8PrivateKey(k)
 	if err != nil {
@@ -90,13 +92,13 @@ func pemKey(k ed25519.PrivateKey) []byte {
 var c19Kinds = []string{"valid", "other-ca", "self-signed", "wrong-name", "expired", "not-yet-valid", "intermediate-present", "intermediate-missing", "no-certificate", "expires-during-run"}
 
 type c19pki struct {
-	caCert, otherCA      *x509.Certificate
-	caDER                []byte
-	caKey, otherKey      ed25519.PrivateKey
-	clientDER            []byte
-	clientKey            ed25519.PrivateKey
-	host                 string
-	now                  time.Time
+	caCert, otherCA *x509.Certificate
+	caDER           []byte
+	caKey, otherKey ed25519.PrivateKey
+	clientDER       []byte
+	clientKey       ed25519.PrivateKey
+	host            string
+	now             time.Time
 }
 
 // serverChain builds the certificate chain a fake server presents for one of the kinds.
